@@ -485,6 +485,7 @@ func (in *Interp) mapLookup(m MapV, k Value, elem types.Type) (Value, *Term) {
 	if m.Obj == nil {
 		return in.zero(elem), tb.False
 	}
+	in.noteMapAccess(m, false)
 	md := m.Obj.Val.(*MapData)
 	type cand struct {
 		idx int
@@ -534,6 +535,7 @@ func (in *Interp) mapUpdate(m MapV, k, v Value) {
 		in.endPath("panic:nil map")
 	}
 	tb := in.tb
+	in.noteMapAccess(m, true)
 	md := m.Obj.Val.(*MapData)
 	// find the matching live entry (fork on symbolic equality)
 	for i := len(md.E) - 1; i >= 0; i-- {
@@ -558,6 +560,7 @@ func (in *Interp) mapDelete(m MapV, k Value) {
 	if m.Obj == nil {
 		return
 	}
+	in.noteMapAccess(m, true)
 	md := m.Obj.Val.(*MapData)
 	for i := len(md.E) - 1; i >= 0; i-- {
 		e := &md.E[i]
@@ -579,6 +582,7 @@ func (in *Interp) mapLen(m MapV) int {
 	if m.Obj == nil {
 		return 0
 	}
+	in.noteMapAccess(m, false)
 	n := 0
 	for _, e := range m.Obj.Val.(*MapData).E {
 		if e.Alive {
@@ -601,6 +605,7 @@ func (in *Interp) rangeIter(v Value, t types.Type) Value {
 	switch x := v.(type) {
 	case MapV:
 		it := &iterV{}
+		in.noteMapAccess(x, false)
 		if x.Obj != nil {
 			for _, e := range x.Obj.Val.(*MapData).E {
 				if e.Alive {
